@@ -811,6 +811,8 @@ pub fn drive_dual(a: &Args, thorough: bool) {
     let mut sh = Shards::new(&a.out, "obj_dual", a.shards);
     let mut rng = Rng::new(a.seed ^ 0xbbbb);
     let mut n = 0u64;
+    // "equal iff the raw hashes are equal": families of different raws with the same normalised part
+    n += dual_families(&mut sh, &mut rng, if thorough { 2000 } else { 80 });
     let dirty = H { k: 7, a: vec![9u8; 64], b: one_run(64, 3, 40, 2) };
     let l64 = run_layouts(&mut rng, 64, thorough);
     let l32 = run_layouts(&mut rng, 32, thorough);
@@ -913,6 +915,70 @@ pub fn small_domain(full: bool) -> Vec<H> {
     }
     v
 }
+pub fn ev_dualord(sh: &mut Shards, fam: &[H]) {
+    let objs: Vec<LongDualFuzzyHash> = fam.iter().map(|h| LongDualFuzzyHash::from_raw_form(&LongRawFuzzyHash::new_from_internals_near_raw(h.k, &h.a, &h.b))).collect();
+    let mat = |f: &dyn Fn(&LongDualFuzzyHash, &LongDualFuzzyHash) -> String| -> String {
+        let rows: Vec<String> = objs.iter().map(|x| format!("[{}]", objs.iter().map(|y| f(x, y)).collect::<Vec<_>>().join(","))).collect();
+        format!("[{}]", rows.join(","))
+    };
+    let famj: Vec<String> = fam.iter().map(|h| h.j_pub()).collect();
+    sh.emit(&format!(
+        "{{\"ev\":\"dualord\",\"fam\":[{}],\"m\":{},\"m2\":{},\"eq\":{},\"heq\":{}}}",
+        famj.join(","),
+        mat(&|x, y| ord_i(x.cmp(y)).to_string()),
+        mat(&|x, y| ord_i(x.partial_cmp(y).unwrap()).to_string()),
+        mat(&|x, y| (x == y).to_string()),
+        mat(&|x, y| (hash_stream(x) == hash_stream(y)).to_string())
+    ));
+}
+/// families of raw hashes sharing one normalised part (different run lengths), plus the normalised
+/// hash itself, a duplicate and sometimes a member with another normalised part: full matrices of
+/// cmp / partial_cmp / == / Hash over their dual hashes ("equal iff the raw hashes are equal")
+pub fn dual_families(sh: &mut Shards, rng: &mut Rng, count: usize) -> u64 {
+    let mut n = 0u64;
+    for f in 0..count {
+        sh.next_unit();
+        let al = alphabet(rng);
+        let la = rng.range(3, 24);
+        let base_a = cap_runs(&rand_bh(rng, la, &al, 0), 3);
+        let base_b = cap_runs(&rand_bh(rng, 12, &al, 0), 3);
+        let mut fam: Vec<H> = vec![];
+        let k = rng.below(31) as u8;
+        fam.push(H { k, a: base_a.clone(), b: base_b.clone() });
+        for _ in 0..rng.range(3, 9) {
+            // same normalised part, different run lengths: extend runs of 3
+            let ext = |rng: &mut Rng, v: &[u8], cap: usize| -> Vec<u8> {
+                let mut o = vec![];
+                let mut i = 0;
+                while i < v.len() {
+                    o.push(v[i]);
+                    if i >= 2 && v[i] == v[i - 1] && v[i] == v[i - 2] && rng.chance(2, 3) {
+                        for _ in 0..rng.range(1, 9) {
+                            if o.len() + (v.len() - i) < cap {
+                                o.push(v[i]);
+                            }
+                        }
+                    }
+                    i += 1;
+                }
+                o
+            };
+            let m = if f % 5 == 0 && rng.chance(1, 4) {
+                H { k, a: related(rng, &base_a, 64, &al), b: base_b.clone() } // a different normalised part
+            } else {
+                H { k, a: ext(rng, &base_a, 64), b: ext(rng, &base_b, 64) }
+            };
+            fam.push(m);
+        }
+        if rng.chance(1, 2) {
+            let dup = H { k: fam[1].k, a: fam[1].a.clone(), b: fam[1].b.clone() };
+            fam.push(dup);
+        }
+        ev_dualord(sh, &fam);
+        n += 1;
+    }
+    n
+}
 pub fn drive_ord(a: &Args, thorough: bool) {
     let mut sh = Shards::new(&a.out, "obj_ord", a.shards);
     let mut rng = Rng::new(a.seed ^ 0xcccc);
@@ -978,60 +1044,7 @@ pub fn drive_ord(a: &Args, thorough: bool) {
         n += 1;
     }
     // dual families
-    for f in 0..(if thorough { 3000 } else { 60 }) {
-        sh.next_unit();
-        let al = alphabet(&mut rng);
-        let la = rng.range(3, 24);
-        let base_a = cap_runs(&rand_bh(&mut rng, la, &al, 0), 3);
-        let base_b = cap_runs(&rand_bh(&mut rng, 12, &al, 0), 3);
-        let mut fam: Vec<H> = vec![];
-        let k = rng.below(31) as u8;
-        fam.push(H { k, a: base_a.clone(), b: base_b.clone() });
-        for _ in 0..rng.range(3, 9) {
-            // same normalised part, different run lengths: extend runs of 3
-            let ext = |rng: &mut Rng, v: &[u8], cap: usize| -> Vec<u8> {
-                let mut o = vec![];
-                let mut i = 0;
-                while i < v.len() {
-                    o.push(v[i]);
-                    if i >= 2 && v[i] == v[i - 1] && v[i] == v[i - 2] && rng.chance(2, 3) {
-                        for _ in 0..rng.range(1, 9) {
-                            if o.len() + (v.len() - i) < cap {
-                                o.push(v[i]);
-                            }
-                        }
-                    }
-                    i += 1;
-                }
-                o
-            };
-            let m = if f % 5 == 0 && rng.chance(1, 4) {
-                H { k, a: related(&mut rng, &base_a, 64, &al), b: base_b.clone() } // a different normalised part
-            } else {
-                H { k, a: ext(&mut rng, &base_a, 64), b: ext(&mut rng, &base_b, 64) }
-            };
-            fam.push(m);
-        }
-        if rng.chance(1, 2) {
-            let dup = H { k: fam[1].k, a: fam[1].a.clone(), b: fam[1].b.clone() };
-            fam.push(dup);
-        }
-        let objs: Vec<LongDualFuzzyHash> = fam.iter().map(|h| LongDualFuzzyHash::from_raw_form(&LongRawFuzzyHash::new_from_internals_near_raw(h.k, &h.a, &h.b))).collect();
-        let mat = |f: &dyn Fn(&LongDualFuzzyHash, &LongDualFuzzyHash) -> String| -> String {
-            let rows: Vec<String> = objs.iter().map(|x| format!("[{}]", objs.iter().map(|y| f(x, y)).collect::<Vec<_>>().join(","))).collect();
-            format!("[{}]", rows.join(","))
-        };
-        let famj: Vec<String> = fam.iter().map(|h| h.j_pub()).collect();
-        sh.emit(&format!(
-            "{{\"ev\":\"dualord\",\"fam\":[{}],\"m\":{},\"m2\":{},\"eq\":{},\"heq\":{}}}",
-            famj.join(","),
-            mat(&|x, y| ord_i(x.cmp(y)).to_string()),
-            mat(&|x, y| ord_i(x.partial_cmp(y).unwrap()).to_string()),
-            mat(&|x, y| (x == y).to_string()),
-            mat(&|x, y| (hash_stream(x) == hash_stream(y)).to_string())
-        ));
-        n += 1;
-    }
+    n += dual_families(&mut sh, &mut rng, if thorough { 3000 } else { 60 });
     println!("STATS {{\"ord\":{{\"events\":{}}}}}", n);
     sh.finish();
 }
